@@ -274,10 +274,15 @@ func runC15(c *Ctx, idx int, o *Obs) {
 			}
 			nodes := t.Nodes()
 			nd := nodes[k%len(nodes)]
-			if nd.Tip() || nd == t.Root() {
+			if nd.Tip() {
 				continue
 			}
-			p, _ := nd.Parent()
+			var p *tree.Node
+			if nd != t.Root() { // the root is an inner node too: its subtree is the whole tree
+				p, _ = nd.Parent()
+			} else {
+				o.Ev("SubTree_at_root", 1)
+			}
 			var below []string
 			namesBelow(nd, p, &below)
 			before := t.Newick()
@@ -348,8 +353,11 @@ func runC15(c *Ctx, idx int, o *Obs) {
 		if r.Intn(3) == 0 {
 			var cand []*tree.Node
 			for _, nd := range src.Nodes() {
-				if !nd.Tip() && nd != src.Root() && nd.Nneigh() >= 3 {
-					p, _ := nd.Parent()
+				if !nd.Tip() && nd.Nneigh() >= 3 {
+					var p *tree.Node
+					if nd != src.Root() {
+						p, _ = nd.Parent()
+					}
 					var b []string
 					namesBelow(nd, p, &b)
 					if len(b) >= 3 {
